@@ -183,7 +183,7 @@ def run(tier, seed_):
     jobs = common.NCPU
     recs = []
     with ProcessPoolExecutor(max_workers=jobs) as ex:
-        for part in ex.map(_worker, [(shapes[i::jobs], i * 100000, seed_, tier) for i in range(jobs) if shapes[i::jobs]]):
+        for part in ex.map(_worker, [(shapes[i::jobs], i * 100003, seed_, tier) for i in range(jobs) if shapes[i::jobs]]):
             recs += part
     log(f"[C19] {len(recs)} derived-network records ({t():.0f}s)")
 
